@@ -9,6 +9,7 @@ import (
 	"errors"
 	"fmt"
 	"os"
+	"reflect"
 	"sort"
 	"strings"
 	"time"
@@ -37,6 +38,9 @@ type Input struct {
 	Hist []HOp `json:"hist,omitempty"`
 	// Assoc: run the association paths on this case whatever its position (corpus inputs)
 	Assoc bool `json:"assoc,omitempty"`
+	// WKeys: one or two keys (live rows or marked copies) carried by the Model value of an Update and
+	// by the value of a Delete issued under the chain (one key: a record; two: a slice of records)
+	WKeys []int64 `json:"wkeys,omitempty"`
 	// HistComposite: the history runs on the model with a composite primary key (table tsk)
 	HistComposite bool `json:"hist_composite,omitempty"`
 	// SkipHooks: the writes go through a Session{SkipHooks: true} handle (nothing else changes)
@@ -64,9 +68,14 @@ type Obs struct {
 	NUnscopedFind                 []int64
 	Errs                          []string `json:"errs"`
 	Hist                          HObs     `json:"hist"`
+	// the chain's Update / Delete with records named by key: the WHERE text of the statement and the
+	// rows that changed, with and without the marked copies
+	UpdWhere, DelWhere     string
+	KUpd, NKUpd, KDel, NKDel []int64
 }
 
 const liveAtom = 40
+const keyAtom = 45 // the key condition taken from the Model / Delete value of a write
 
 // TSH: the soft-delete model with a hook that starts a statement of its own
 type TSH struct {
@@ -468,8 +477,86 @@ func (e *env) run(in Input) Obs {
 			o.Errs = append(o.Errs, fmt.Sprintf("an update whose values name the soft-delete column changed marked rows %v", ch))
 		}
 	}
+	if len(in.WKeys) > 0 {
+		e.keyedWrites(in, &o, build, unscopedBase, texts, truth)
+	}
 	e.runHist(in, &o)
 	return o
+}
+
+// keyedWrites: Update through a Model value / Delete of a value that names records by key, under the
+// case's chain: the WHERE text of both statements (DryRun; the key condition is atom keyAtom, its text
+// taken from the same write without chain and filter) and the rows that really change.
+func (e *env) keyedWrites(in Input, o *Obs, build func(*gorm.DB) *gorm.DB, unscopedBase func() *gorm.DB, texts map[int][]string, truth map[int][]string) {
+	db := e.db
+	fail := func(w string, err error) {
+		if err != nil {
+			o.Errs = append(o.Errs, w+": "+err.Error())
+		}
+	}
+	value := func() interface{} {
+		one := func(id int64) reflect.Value {
+			m := reflect.ValueOf(whr.NewSoftOne(in.Variant))
+			m.Elem().FieldByName("ID").SetInt(id)
+			return m
+		}
+		if len(in.WKeys) == 1 {
+			return one(in.WKeys[0]).Interface()
+		}
+		sl := reflect.MakeSlice(reflect.SliceOf(reflect.TypeOf(whr.NewSoftOne(in.Variant)).Elem()), 0, len(in.WKeys))
+		for _, id := range in.WKeys {
+			sl = reflect.Append(sl, one(id).Elem())
+		}
+		p := reflect.New(sl.Type())
+		p.Elem().Set(sl)
+		return p.Interface()
+	}
+	where := func(tx *gorm.DB) string {
+		fail("keyed_dryrun", tx.Error)
+		full := db.Dialector.Explain(tx.Statement.SQL.String(), tx.Statement.Vars...)
+		i := strings.Index(full, " WHERE ")
+		if i < 0 {
+			return ""
+		}
+		return full[i+len(" WHERE "):]
+	}
+	dry := &gorm.Session{DryRun: true, AllowGlobalUpdate: true}
+	for _, t := range []string{
+		where(unscopedBase().Session(dry).Model(value()).Update("mark", 1)),
+		where(unscopedBase().Session(dry).Delete(value())),
+	} {
+		dup := false
+		for _, x := range texts[keyAtom] {
+			dup = dup || x == t
+		}
+		if !dup && t != "" {
+			texts[keyAtom] = append(texts[keyAtom], t)
+		}
+	}
+	for _, id := range o.AllIDs {
+		tv := "F"
+		for _, k := range in.WKeys {
+			if k == id {
+				tv = "T"
+			}
+		}
+		truth[keyAtom] = append(truth[keyAtom], tv)
+	}
+	o.UpdWhere = where(build(db).Session(dry).Model(value()).Update("mark", 1))
+	o.DelWhere = where(build(db).Session(dry).Delete(value()))
+	all := func(int64) bool { return true }
+	run := func(twins bool, upd, del *[]int64) {
+		fail("reset", e.reset(in, twins))
+		before := e.dump()
+		fail("keyed_update", build(db).Session(&gorm.Session{AllowGlobalUpdate: true, SkipHooks: in.SkipHooks}).Model(value()).Update("mark", 1).Error)
+		*upd = changed(before, e.dump(), all)
+		fail("reset", e.reset(in, twins))
+		before = e.dump()
+		fail("keyed_delete", build(db).Session(&gorm.Session{AllowGlobalUpdate: true, SkipHooks: in.SkipHooks}).Delete(value()).Error)
+		*del = changed(before, e.dump(), all)
+	}
+	run(false, &o.NKUpd, &o.NKDel)
+	run(true, &o.KUpd, &o.KDel)
 }
 
 // assoc runs the association paths on data derived from the case's rows: owner k has the kids
@@ -992,6 +1079,11 @@ func term(in Input, o Obs) string {
 		lib.ListOf(o.UAssoc, lib.ZList), lib.ListOf(o.NUAssoc, lib.ZList), lib.Z(int64(len(o.Errs)))}
 	args = append(args, gHist(in, o)...)
 	args = append(args, lib.ListOf(in.Rows, func(r Row) string { return lib.Pair(lib.Z(r.ID), lib.Z(r.Age)) }))
+	wk := 0
+	if len(in.WKeys) > 0 {
+		wk = keyAtom
+	}
+	args = append(args, lib.Nat(wk), lib.Str(o.UpdWhere), lib.Str(o.DelWhere), lib.ZList(o.KUpd), lib.ZList(o.NKUpd), lib.ZList(o.KDel), lib.ZList(o.NKDel))
 	return lib.App("mk_case", args...)
 }
 
@@ -1012,6 +1104,15 @@ func main() {
 		if kind != "corpus" && kind != "replay" && in.Hist == nil && len(in.Rows) > 0 {
 			in.Hist = genHist(hr, in.Rows)
 			in.HistComposite = in.Variant == "" && hr.Chance(2, 5)
+			if in.WKeys == nil {
+				for i, n := 0, 1+hr.Intn(2); i < n; i++ {
+					k := lib.Pick(hr, in.Rows).ID
+					if hr.Chance(1, 3) {
+						k += 100
+					}
+					in.WKeys = append(in.WKeys, k)
+				}
+			}
 		}
 		if kind != "corpus" && kind != "replay" {
 			byID := map[int]whr.Atom{}
